@@ -25,11 +25,11 @@ const (
 
 // Val is a symbolic value: an SMT term with its sort and Go type, or an interior pointer (Loc), or a tuple.
 type Val struct {
-	T   string
-	S   Sort
-	Typ types.Type
-	Loc *Loc
-	Tup []Val
+	T       string
+	S       Sort
+	Typ     types.Type
+	Loc     *Loc
+	Tup     []Val
 	ArrView string // for x[:] of an array kept as one opaque value: that value (used by bytes.Equal)
 }
 
@@ -38,17 +38,17 @@ func (v Val) isLoc() bool { return v.Loc != nil }
 // VC is the verification-condition context of one function: declarations, background assertions in generation
 // order and the obligations, each of which may use the assertions emitted before it.
 type VC struct {
-	prog     *Program
-	decls    []string
-	declSet  map[string]bool
-	dtDecls  []string // datatype declarations (must precede everything)
-	dtSet    map[string]bool
-	asserts  []string
-	tags     []int // top-level block that generated each assertion (-1: global)
-	curTag   int
-	reachTo  map[int]map[int]bool // block -> set of blocks that can reach it in the cut DAG (incl. itself)
-	obls     []*Obligation
-	nfresh   int
+	prog       *Program
+	decls      []string
+	declSet    map[string]bool
+	dtDecls    []string // datatype declarations (must precede everything)
+	dtSet      map[string]bool
+	asserts    []string
+	tags       []int // top-level block that generated each assertion (-1: global)
+	curTag     int
+	reachTo    map[int]map[int]bool // block -> set of blocks that can reach it in the cut DAG (incl. itself)
+	obls       []*Obligation
+	nfresh     int
 	abbr       map[string]string // let-bound names of large specification-function arguments -> full term
 	abbrActive int
 	kinds      []byte // per assert: 0 ordinary, 'L' assumed lemma (used only by the light query)
@@ -56,14 +56,14 @@ type VC struct {
 	nPre       int // asserts [0,nPre) are typing facts of the parameters, axioms and the precondition
 	hasLemmas  bool
 	compTrace  map[string]bool // when non-nil: heap components read through compAt (reads-clause completeness check)
-	warnings []string
-	strLits  map[string]string
-	structs  map[string]*types.Struct // datatype name -> struct type
-	ufuncs   map[string]bool
-	trusted  map[string]bool // trusted-base notes actually used in this VC
-	unfolded map[string]bool
-	splitCands []splitCand // Boolean terms worth case-splitting on (append in-place flags, heavy branch conditions)
-	frontier map[string]string // heap component version -> allocation frontier its allocated cells are well typed for
+	warnings   []string
+	strLits    map[string]string
+	structs    map[string]*types.Struct // datatype name -> struct type
+	ufuncs     map[string]bool
+	trusted    map[string]bool // trusted-base notes actually used in this VC
+	unfolded   map[string]bool
+	splitCands []splitCand       // Boolean terms worth case-splitting on (append in-place flags, heavy branch conditions)
+	frontier   map[string]string // heap component version -> allocation frontier its allocated cells are well typed for
 }
 
 type Obligation struct {
@@ -76,19 +76,19 @@ type Obligation struct {
 	NAsserts int // number of background assertions in scope
 	vc       *VC
 	// results
-	Status  string // unsat (discharged), sat, unknown, timeout
-	Solver  string
-	Seconds float64
-	Model   string
-	Expect  string // "" (must be unsat) or "sat" for vacuity canaries
-	Agree   int
-	Tag     int // top-level block of the obligation (-1: whole function)
+	Status     string // unsat (discharged), sat, unknown, timeout
+	Solver     string
+	Seconds    float64
+	Model      string
+	Expect     string // "" (must be unsat) or "sat" for vacuity canaries
+	Agree      int
+	Tag        int      // top-level block of the obligation (-1: whole function)
 	MoreSplits []string // further candidates, used only to sub-divide a case that is not decided in time
-	Splits  []string // Boolean terms to case-split on when the monolithic query is not decided quickly
-	Cases   int
+	Splits     []string // Boolean terms to case-split on when the monolithic query is not decided quickly
+	Cases      int
 	caseMillis int64
 	lightMode  bool
-	Desc    string
+	Desc       string
 }
 
 func newVC(p *Program) *VC {
